@@ -121,6 +121,46 @@ def loop_owner_vars(func: ast.AST, selfname: str = "self") -> Dict[str, List[str
     return out
 
 
+def propagate_channel_aliases(fi):
+    """A copy of `fi` in which locals bound exactly once to a spin-channel sub-object of self (`up = self.data_K_up`,
+    `up, dn = self.data_K_up, self.data_K_down`) are replaced by that attribute, so that owners are read off attribute chains."""
+    import copy
+    from ..index import FunctionInfo
+    node = copy.deepcopy(fi.node)
+    stores: Dict[str, int] = {}
+    for n in ast.walk(node):
+        if isinstance(n, ast.Name) and isinstance(n.ctx, (ast.Store, ast.Del)):
+            stores[n.id] = stores.get(n.id, 0) + 1
+        elif isinstance(n, ast.arg):
+            stores[n.arg] = stores.get(n.arg, 0) + 1
+    alias: Dict[str, ast.AST] = {}
+
+    def is_channel_obj(e: ast.AST) -> bool:
+        return isinstance(e, ast.Attribute) and isinstance(e.value, ast.Name) and e.value.id == "self" and channel_of_name(e.attr) is not None
+    for st in ast.walk(node):
+        if isinstance(st, ast.Assign) and len(st.targets) == 1:
+            t, v = st.targets[0], st.value
+            pairs = []
+            if isinstance(t, ast.Name):
+                pairs = [(t, v)]
+            elif isinstance(t, ast.Tuple) and isinstance(v, ast.Tuple) and len(t.elts) == len(v.elts):
+                pairs = list(zip(t.elts, v.elts))
+            for a, b in pairs:
+                if isinstance(a, ast.Name) and stores.get(a.id) == 1 and is_channel_obj(b):
+                    alias[a.id] = b
+    if not alias:
+        return fi
+
+    class Sub(ast.NodeTransformer):
+        def visit_Name(self, n):
+            if isinstance(n.ctx, ast.Load) and n.id in alias:
+                return ast.copy_location(copy.deepcopy(alias[n.id]), n)
+            return n
+    node = Sub().visit(node)
+    ast.fix_missing_locations(node)
+    return FunctionInfo(name=fi.name, qualname=fi.qualname, module=fi.module, node=node, cls=fi.cls, decorators=list(fi.decorators))
+
+
 def owner_of_chain(parts: List[str], loopvars: Dict[str, List[str]], selfname: str = "self") -> Optional[Tuple[str, str]]:
     """(owner, first R-indexed attribute) of an attribute chain, or None if it carries no R-indexed data."""
     if parts and parts[0] == selfname:
